@@ -514,3 +514,31 @@ Proof.
       split; reflexivity. }
   rewrite E1, E2 in H. specialize (H V). lia.
 Qed.
+
+(* F03 (fx_depth = false), D = 2: a cyclic message (struct -> composite list -> element ->
+   the same composite list) whose op list keeps succeeding: List.Struct on a list with depth
+   budget 0 wraps the uint to 2^64-1.  Handle 3 is valid although it is 3 > D dereferences
+   below the root, and the descent can be continued for ever. *)
+Definition cyc_msg : segs :=
+  [[0;0;0;0;0;0;1;0;  1;0;0;0;15;0;0;0;  4;0;0;0;0;0;1;0;  249;255;255;255;15;0;0;0]].
+Definition cyc_ops : list op :=
+  [ORoot; OSPtr 0 0; OLStruct 1 0; OSPtr 2 0; OLStruct 3 0; OSPtr 4 0; OInfo 3; OInfo 5].
+
+Example depth_prefix_refuted :
+  msg_ok cyc_msg /\
+  let c := mkCfg 0 2 true true in
+  let st := fst (run c (mkFix false true true) cyc_msg (init_state c) cyc_ops) in
+  p_valid (handle st 3) = true /\ lvl_of (run_lvl cyc_ops) 3 = 3 /\
+  p_valid (handle st 5) = true /\ lvl_of (run_lvl cyc_ops) 5 = 4 /\
+  p_depth (handle st 5) = 18446744073709551612.
+Proof.
+  split.
+  - repeat constructor; cbn; try lia; unfold maxSegmentSize; lia.
+  - vm_compute. repeat split.
+Qed.
+(* the repaired List.Struct stops the same op list at depth D *)
+Example depth_fixed_stops :
+  let c := mkCfg 0 2 true true in
+  let st := fst (run c (mkFix true true true) cyc_msg (init_state c) cyc_ops) in
+  p_valid (handle st 1) = true /\ p_valid (handle st 2) = true /\ p_valid (handle st 3) = false.
+Proof. vm_compute. repeat split. Qed.
